@@ -20,9 +20,9 @@
 (* Reset, Observed only and the invariants are evaluated on the observed   *)
 (* outcome alone.                                                          *)
 (*                                                                         *)
-(* Verdicts: an invariant violation (TLC names it), or the trace is not    *)
-(* consumed to its end -- no Driver action matches the next event -- and   *)
-(* the post-condition Accepted fails after printing the index reached.     *)
+(* Verdicts: an invariant violation (TLC names it; run with -continue), or  *)
+(* no Driver action matches the next event of a run (TrRejected prints the  *)
+(* index and resumes at the next run).                                     *)
 (***************************************************************************)
 EXTENDS Driver, Json, IOUtils
 
@@ -36,7 +36,7 @@ tvars == << vars, l, blind >>
 ToSet(s)   == {s[i] : i \in DOMAIN s}
 Ev         == Trc[l]
 IsEvent(n) == l <= Len(Trc) /\ Trc[l].ev = n
-Consume    == l' = l + 1 /\ TLCSet(1, l + 1) /\ UNCHANGED blind
+Consume    == l' = l + 1 /\ UNCHANGED blind
 Stay       == UNCHANGED << l, blind >>
 Status(n)  == IF n = 0 THEN 0 ELSE 1
 
@@ -50,7 +50,7 @@ ResetTo(n, req, pst) ==
     /\ pendingIo' = NoPending /\ postDone' = {} /\ exit' = NoExit
 
 TraceInit ==
-    /\ l = 1 /\ blind = FALSE /\ TLCSet(1, 1)
+    /\ l = 1 /\ blind = FALSE
     /\ nfiles = 1 /\ requested = {"ao"} /\ post = {}
     /\ file = 0 /\ fstate = "idle" /\ rank = 0 /\ phase = NoPhase
     /\ errs = [f \in 1..(MaxFiles + 1) |-> 0]
@@ -65,7 +65,7 @@ TrReset ==
     /\ IF l = 1 THEN TRUE ELSE Trc[l - 1].ev = "Observed"
     /\ Ev.nfiles \in 1..MaxFiles /\ ToSet(Ev.requested) \subseteq Kinds /\ ToSet(Ev.requested) # {}
     /\ ResetTo(Ev.nfiles, ToSet(Ev.requested), ToSet(Ev.post))
-    /\ l' = l + 1 /\ TLCSet(1, l + 1) /\ blind' = ~Ev.hooks
+    /\ l' = l + 1 /\ blind' = ~Ev.hooks
 
 TrFileStart == IsEvent("FileStart") /\ ~blind /\ StartFile /\ file' = Ev.file /\ Consume
 TrFileEnd   == IsEvent("FileEnd")   /\ ~blind /\ EndFile /\ Consume
@@ -131,12 +131,27 @@ TrObserved ==
                     dying, postDone >>
     /\ Consume
 
-TraceNext == \/ TrReset \/ TrFileStart \/ TrFileEnd \/ TrPhStart \/ TrPhEnd \/ TrMsg \/ TrOpen
+TraceCore == \/ TrReset \/ TrFileStart \/ TrFileEnd \/ TrPhStart \/ TrPhEnd \/ TrMsg \/ TrOpen
              \/ TrClose \/ TrCleanup \/ TrLink \/ TrInterp \/ TrExit \/ TrObserved
+
+\* The run is not a behaviour of Driver: no action matches event l.  The verdict is printed
+\* and validation resumes at the next run, so that one TLC process judges a whole batch.
+NextRun(i) == LET S == {j \in (i + 1)..Len(Trc) : Trc[j].ev \in {"Reset", "End"}}
+              IN  IF S = {} THEN Len(Trc) + 1 ELSE CHOOSE j \in S : \A k \in S : j <= k
+
+TrRejected ==
+    /\ l <= Len(Trc) /\ Trc[l].ev # "End" /\ ~ENABLED TraceCore
+    /\ PrintT(<<"STUCK", l>>)
+    /\ l' = NextRun(l)
+    /\ UNCHANGED << vars, blind >>
+
+\* the harness ends every file with an End event; reaching it shows that the whole file was judged
+TrEnd == IsEvent("End") /\ PrintT(<<"END", l>>) /\ l' = l + 1 /\ UNCHANGED << vars, blind >>
+
+TraceNext == TraceCore \/ TrRejected \/ TrEnd
 
 TraceSpec == TraceInit /\ [][TraceNext]_tvars
 
-\* acceptance: every event was consumed
-Accepted == IF TLCGet(1) > Len(Trc) THEN TRUE
-            ELSE PrintT(<<"STUCK", TLCGet(1)>>) /\ FALSE
+\* error traces show only where we are
+TraceAlias == [l |-> l, exit |-> exit, printedError |-> printedError]
 =============================================================================
